@@ -345,6 +345,8 @@ func (g *gen) signature(o sigOpts) string {
 
 var untypedInts = []string{"0", "1", "-1", "42", "1 << 62", "1 << 63", "1<<64 - 1", "1 << 200", "-(1 << 200)", "0x7fffffff", "0b1010", "0o777", "1_000_000", "1<<511 + 12345", "-9223372036854775808", "1<<200 / 3", "'a' * 2 / 'b' + 5 - 'c' + 100 - 'A'*0"}
 var untypedFloats = []string{"0.0", "1.0", "0.5", "1e3", "1.0 / 3", "2.0 / 3", "1e-400", "1e400", "1e-1500", "1e1500", "3.14159265358979323846264338327950288419716939937510582097494459", "2.71828182845904523536028747135266249775724709369995957496696763", "0x1p-1074", "0x1.fffffffffffffp1023", "1e-7", "123.456e10", "6.02214076e23", "1.0 / 7", "(1 << 100) / 3.0", "0.1 + 0.2", "340282346638528859811704183484516925440.0", "1 << 300 * 1.0", "1.0 / (1 << 500)", "-1.5", "1.0 / 1e300 / 7", "4.0 / 2", "5e-324 / 3"}
+var runeBoundaries = []string{"'a' - 'b'", "-'a'", "'\\x00' - 1", "'\\uD7FF' + 1", "'\\uE000' - 1", "'\\uD7FF' + 0x400", "'\\U0010FFFF' + 1", "'a' << 33", "-('a' << 33)", "'a' - 1<<31", "'a' + 1<<31", "'\\U0010FFFF' * 2", "-'\\U0010FFFF'"}
+
 var untypedRunes = []string{"'a'", "'\\n'", "'\\u00e9'", "'\\U0001F600'", "'a' + 1", "'\\xff'", "'\\''", "'世'"}
 var untypedStrings = []string{`"hello"`, `""`, `"a\xffb"`, `"tab\t\"q\"\\"`, "`raw\\n`", `"世界"`, `"a" + "b"`, "\"tick`tick\"", `"nul\x00nul"`, `"  line sep"`, "`multi\nline`"}
 var untypedBools = []string{"true", "false", "1 < 2", "!true", `"a" == "b"`}
@@ -385,7 +387,20 @@ func (g *gen) constDecl() {
 		g.label("const-untyped-float")
 	case 5:
 		n := g.name(exp, "CR")
-		g.decls = append(g.decls, fmt.Sprintf("const %s = %s", n, untypedRunes[g.pick("rune", len(untypedRunes))]))
+		switch g.pick("runeform", 3) {
+		case 0:
+			g.decls = append(g.decls, fmt.Sprintf("const %s = %s", n, untypedRunes[g.pick("rune", len(untypedRunes))]))
+		case 1:
+			// rune-kind constants outside the valid code points: negative,
+			// surrogate halves, above unicode.MaxRune, wider than 32 bits
+			g.decls = append(g.decls, fmt.Sprintf("const %s = %s", n, runeBoundaries[g.pick("runebound", len(runeBoundaries))]))
+			g.label("const-untyped-rune-not-a-code-point")
+		default:
+			base := []string{"'a'", "'\\x00'", "'\\uD7FF'", "'\\uE000'", "'\\U0010FFFF'"}[g.pick("runebase", 5)]
+			off := g.pick("runeoff", 0x4001) - 0x2000
+			g.decls = append(g.decls, fmt.Sprintf("const %s = %s + %d", n, base, off))
+			g.label("const-untyped-rune-arith")
+		}
 		g.label("const-untyped-rune")
 	case 6:
 		n := g.name(exp, "CS")
